@@ -544,3 +544,47 @@ func sortedKeys[V any](m map[string]V) []string {
 	sort.Strings(ks)
 	return ks
 }
+
+// alphaKey renders t with bound variables renamed canonically (by binder
+// depth and position), so that two terms equal up to the names of their bound
+// variables get the same key.
+func alphaKey(t *Term) string {
+	var b strings.Builder
+	var rec func(t *Term, env map[string]string, depth int)
+	rec = func(t *Term, env map[string]string, depth int) {
+		if len(t.Bound) > 0 {
+			env2 := make(map[string]string, len(env)+len(t.Bound))
+			for k, v := range env {
+				env2[k] = v
+			}
+			b.WriteString("(" + t.Op + " (")
+			for i, bv := range t.Bound {
+				n := fmt.Sprintf("?b%d_%d", depth, i)
+				env2[bv.Name] = n
+				b.WriteString("(" + n + " " + string(bv.Sort) + ")")
+			}
+			b.WriteString(") ")
+			for _, a := range t.Args {
+				rec(a, env2, depth+1)
+			}
+			b.WriteString(")")
+			return
+		}
+		if len(t.Args) == 0 {
+			if n, ok := env[t.Op]; ok {
+				b.WriteString(n)
+			} else {
+				b.WriteString(t.Op)
+			}
+			b.WriteString(" ")
+			return
+		}
+		b.WriteString("(" + t.Op + " ")
+		for _, a := range t.Args {
+			rec(a, env, depth)
+		}
+		b.WriteString(")")
+	}
+	rec(t, map[string]string{}, 0)
+	return b.String()
+}
